@@ -289,9 +289,12 @@ def run_grammar(ctx, G, family, inputs, engines=ENGINES):
             built = {k: v for k, v in built.items() if k[0] != 'lalr'}
     ctx.sample({'grammar': text, 'family': family, 'inputs': inputs[:6], 'engines': ['%s/%s' % e for e in built]})
     for (parser, lexer), l in built.items():
+        hist = []         # what this instance has parsed so far: a verdict that depends on it (a cache filled by an earlier
+                          # rejection) must be reproducible from the replay file
         for s in starts:
             for w in inputs:
-                case = dict(case0, engine=[parser, lexer], start=s, input=w)
+                case = dict(case0, engine=[parser, lexer], start=s, input=w, earlier=list(hist[-60:]))
+                hist.append([s, w])
                 out = call(ctx, 'parse', l.parse, w, start=s, budget=PARSE_BUDGET)
                 if out[0] == 'wall':
                     ctx.inconc('wall guard', case)
@@ -416,7 +419,8 @@ def run_batch(ctx):
 
 
 def replay(ctx, case):
-    run_grammar(ctx, case['grammar'], case.get('family', 'replay'), [case['input']], [tuple(case['engine'])])
+    earlier = [w for s, w in case.get('earlier', []) if s == case.get('start', 'start')]
+    run_grammar(ctx, case['grammar'], case.get('family', 'replay'), earlier + [case['input']], [tuple(case['engine'])])
 
 
 def selftest(ctx):
